@@ -1,5 +1,7 @@
 import J5V.Codec.DecodeProofs
 import J5V.Json.TokenProofs
+import J5V.Json.SizeProofs
+import J5V.Codec.StepBound
 import J5V.Generated.CodecFacts
 /-!
 # C06 — the decoder is total: no input crashes, hangs or exhausts the stack
@@ -15,6 +17,9 @@ explicit `.panic` outcome.
   (`tokenize`, `readDoc`) and every decoder function is accepted by Lean as *structurally*
   recursive on the tree `readDoc bytes` — there is no `partial`, no well-founded recursion and
   no fuel in `J5V.Codec.Decode`; the recursion depth is the nesting depth of the document.
+* **Time bounded by the input size**: `C06_linear` — the step count `decodeBytesN`
+  (`J5V.Codec.Steps`, same recursion as the decoder, continuing a loop with the decoder's own
+  intermediate results) is at most `1010 · |bs| + 2222`.
 -/
 namespace J5V.Props.C06
 open J5V.Go J5V.Json J5V.Codec
@@ -53,6 +58,40 @@ theorem C06_oneof_post_no_panic (ops : List PropDef) (found : List Bytes) (ct : 
     (m : Fields) : ∀ w, oneofPost ops found ct m ≠ .panic w :=
   oneofPost_np ops found ct m
 
+/-! ## time bounded by the input size -/
+
+/-- **C06_linear (tree level)**: the number of steps of the decoder — `decRootTreeN`
+(`Codec/Steps.lean`): one per `decodeValue` call, one per loop iteration, for an `Any` value the
+nodes `Decoder.Decode(&raw)` and `json.Compact` re-scan plus, with `WithProtoToAny`, the steps of
+decoding the value again one level deeper — is at most `2 · anyFactor c` steps per node of the
+document, where `anyFactor c = maxAnyDepth - c.anyDepth + 1 ≤ 101`: every node is visited a bounded
+number of times. For every environment (no hypothesis), every root, both modes, every tree.
+Before repair 309b762 there was no such bound: nested `Any` values were re-read at every level
+(and in the real code re-marshalled: cubic time). -/
+theorem C06_linear_tree (c : Cfg) (root : String) (t : PTree) :
+    decRootTreeN c root t ≤ anyFactor c * (2 * t.size) :=
+  decRootTreeN_le c root t
+
+/-- **C06_linear**: `Codec.JSONToProto` on `bs` (fresh codec: `anyDepth = 0`) takes at most
+`1010 · |bs| + 2222` decoder steps after one tokenisation pass: linear in the input size. (The
+tree has at most five nodes per token, `readDoc_size`; the tokenizer delivers at most one token
+per byte, `tokenize_length`, and never exhausts its fuel, `C06_tokenize_fuel_ok`.) -/
+theorem C06_linear (c : Cfg) (hd : c.anyDepth = 0) (root : String) (bs : Bytes) :
+    decodeBytesN c root bs ≤ 1010 * bs.length + 2222 := by
+  unfold decodeBytesN
+  have h1 := decRootTreeN_le c root (readDoc bs)
+  have h2 := readDoc_size bs
+  have hf : anyFactor c = 101 := by unfold anyFactor maxAnyDepth; rw [hd]
+  rw [hf] at h1
+  omega
+
+/-- **recursion depth**: every decoder function is structurally recursive on the document tree,
+so the depth of its recursion is at most the nesting depth of the document (plus, per enclosing
+`Any`, one restart — at most `maxAnyDepth` of them), and the nesting depth is at most the size:
+no recursion without bound -/
+theorem C06_depth_le_size (bs : Bytes) : (readDoc bs).depth ≤ 5 * bs.length + 11 :=
+  Nat.le_trans (depth_le_size _) (readDoc_size bs)
+
 /-- environment with an array of arrays (not expressible in proto) -/
 def badProp : PropDef :=
   { jsonName := [0x61], path := [1], pres := .list, field := .array (.array (.scalar .string)) }
@@ -88,6 +127,18 @@ def sampleEnv : Env :=
         { jsonName := ascii "flat", path := [8, 1], pres := .imp, field := .scalar .bool }])] }
 
 example : sampleEnv.itemsOk = true := by decide
+
+/-- a fresh codec has `anyDepth = 0` (hypothesis of `C06_linear`) -/
+example : ({ env := sampleEnv, O := default } : Cfg).anyDepth = 0 := rfl
+
+/-- the step count is not vacuous: `{"name":"x","n":"5"}` takes 6 steps (root, two members with
+their values, terminator), `{"kids":[{}]}` takes 8 -/
+example : decRootTreeN { env := sampleEnv, O := default } "t.M"
+    (.obj (.cons (ascii "name") [] (.str (ascii "x") [])
+      (.cons (ascii "n") [] (.str (ascii "5") []) (.nil .closed)))) = 6 := by decide
+example : decRootTreeN { env := sampleEnv, O := default } "t.M"
+    (.obj (.cons (ascii "kids") [] (.arr (.cons (.obj (.nil .closed)) (.nil .closed))) (.nil .closed))) = 8 := by
+  decide
 
 /-! ## source facts
 Obligations over `J5V.Generated.Codec` (regenerated from /repo's current source by extract/codec.go at
